@@ -763,7 +763,14 @@ class Xor2(Logic):
         Nand2(self, "NandMid", a, b, mid)
         Nand2(self, "NandX", a, mid, xout)
         Nand2(self, "NandY", b, mid, yout)
-        Nand2(self, "NandR", xout, yout, r)
+        if (r.getWidth() > a.getWidth()):
+            # the upper bits of a wider result are zero (as in the generated a ^ b),
+            # the final inverting stage must not fill them with ones
+            pre_r = self.wire("PreR", a.getWidth())
+            Nand2(self, "NandR", xout, yout, pre_r)
+            Buf(self, "r", pre_r, r)
+        else:
+            Nand2(self, "NandR", xout, yout, r)
 
 
 class Xor(Logic):
